@@ -286,12 +286,14 @@ def main_source(case, extra_sites=()):
 {R.get('pre', '')}{R['code'].format(S=s, A=As)}"""
         body += check_code(c, A) + "    jne 8f\n"
     vis = ""
+    # the 1-byte section that makes the site's section start at an odd address must survive --gc-sections
+    keep = "    cmpb $0x5a, vt_shift(%rip)\n    jne 8f\n" if case.get("shift") else ""
     t += f""".text
 .globl vt_main
 .type vt_main,@function
 vt_main:
     push %rbx
-{body}    xor %eax, %eax
+{keep}{body}    xor %eax, %eax
     pop %rbx
     ret
 8:
@@ -343,8 +345,8 @@ class Toolbox:
             self.defs = {k: self.d / f"defs_{k}.o" for k in SYMS}
             return
         self.d.mkdir(parents=True, exist_ok=True)
-        (self.d / "shift_w.s").write_text(NOTE + '.section .data.site,"aw",@progbits\n.byte 0x5a\n')
-        (self.d / "shift_r.s").write_text(NOTE + '.section .rodata.site,"a",@progbits\n.byte 0x5a\n')
+        (self.d / "shift_w.s").write_text(NOTE + '.section .data.site,"aw",@progbits\n.globl vt_shift\n.hidden vt_shift\nvt_shift: .byte 0x5a\n')
+        (self.d / "shift_r.s").write_text(NOTE + '.section .rodata.site,"a",@progbits\n.globl vt_shift\n.hidden vt_shift\nvt_shift: .byte 0x5a\n')
         self.shift_w = assemble(self.d / "shift_w.s")
         self.shift_r = assemble(self.d / "shift_r.s")
         (self.d / "helper.s").write_text(helper_source())
@@ -678,3 +680,154 @@ def fact_to_json(f):
     for k in ("lhs", "S", "A", "P", "GOT", "TP"):
         out[k] = limbs(f.get(k, 0))
     return out
+
+
+# ---------------------------------------------------------------------------------------------
+# Pointer-place scenarios (C09 / C23): several `.quad sym+A` fields at chosen offsets of one
+# 1-aligned writable section that starts at an even or odd address, plus one GOT load that is
+# not relaxed, in a position-independent output.
+
+PTR_SYMS = ["local_d", "hidden_d", "hidden_f"]
+
+
+def ptr_case(rec, out, got=True):
+    return {"kind": "ptr", "offs": list(rec["offs"]), "secodd": bool(rec["secodd"]), "relr": bool(rec["relr"]),
+            "out": out, "got": got, "sym": "hidden_d", "ref": "abs64", "relax": False,
+            "alloc_relr": rec.get("alloc_relr"), "write_relr": rec.get("write_relr"),
+            "predicted_mismatch": bool(rec.get("predicted_mismatch"))}
+
+
+def ptr_name(c):
+    return f"ptr-{c['out']}-o{'_'.join(map(str, c['offs']))}-odd{int(c['secodd'])}-r{int(c['relr'])}-g{int(c['got'])}"
+
+
+def ptr_source(c):
+    flavor = "libc" if c["out"] == "staticpie-libc" else "bare"
+    t = NOTE
+    t += f""".section .data.loc,"aw",@progbits
+.balign 8
+.ascii "{mk('l_d')}"
+l_d: .quad {IDS['l_d']}, {IDS['l_d'] ^ 0xffff}
+"""
+    body = ""
+    data = '.section .data.site,"aw",@progbits\n' + f'.ascii "{mk("site")}"\nsite:\n'
+    pos = 0
+    for i, off in enumerate(sorted(c["offs"])):
+        k = PTR_SYMS[i % len(PTR_SYMS)]
+        s = SYMS[k]["sym"]
+        A = 8 if SYMS[k]["cls"] == "data" else 0
+        if off > pos:
+            data += f"    .skip {off - pos}, 0x5a\n"
+        data += f"    .quad {s}+{A}\n"
+        pos = off + 8
+        body += f"    mov site+{off}(%rip), %rax\n"
+        if SYMS[k]["cls"] == "data":
+            body += f"    cmpq ${IDS[s]}, -{A}(%rax)\n    jne 8f\n"
+        else:
+            body += f"    call *%rax\n    cmp ${IDS[s]}, %eax\n    jne 8f\n"
+    data += "    .byte 0x5a\n"
+    keep = "    cmpb $0x5a, vt_shift(%rip)\n    jne 8f\n" if c["secodd"] else ""
+    if c["got"]:
+        body += f"""    jmp 9f
+    .balign 8
+    .ascii "{mk('gotsite')}"
+9:
+    movq h_d@GOTPCREL(%rip), %rax
+    cmpq ${IDS['h_d']}, (%rax)
+    jne 8f
+"""
+    t += f""".text
+.globl vt_main
+.type vt_main,@function
+vt_main:
+.Lvt_main:
+    push %rbx
+{keep}{body}    xor %eax, %eax
+    pop %rbx
+    ret
+8:
+    mov $1, %eax
+    pop %rbx
+    ret
+"""
+    if c["out"] != "shared":
+        if flavor == "libc":
+            t += ".globl main\n.type main,@function\nmain:\n    jmp .Lvt_main\n"
+        else:
+            # a local label: no relocation, hence no PLT/GOT slot besides the ones of the scenario
+            t += ".globl _start\n_start:\n    call .Lvt_main\n    mov %eax, %edi\n    mov $60, %eax\n    syscall\n"
+    return t + data
+
+
+def ptr_build(c, d, tb):
+    d = Path(d)
+    d.mkdir(parents=True, exist_ok=True)
+    (d / "main.s").write_text(ptr_source(c))
+    o = assemble(d / "main.s")
+    objs = [o, tb.defs["hidden_d"], tb.defs["hidden_f"]]
+    if c["secodd"]:
+        objs.insert(0, tb.shift_w)
+    return objs
+
+
+def ptr_link(c, objs, d, tb, linker="wild"):
+    out = "staticpie" if c["out"] == "staticpie-libc" else c["out"]
+    case = {"sym": "hidden_d", "ref": "abs64", "out": out, "relr": c["relr"], "relax": False,
+            "opts": c.get("opts", [])}
+    if c["out"] == "staticpie":            # bare static PIE: observed statically only
+        args = ["-pie"] + (["--no-dynamic-linker"] if linker == "ld" else []) + \
+               (["-z", "pack-relative-relocs"] if c["relr"] else []) + ["--no-relax"] + list(c.get("opts", [])) + \
+               [str(o) for o in objs]
+        outp = Path(d) / ("out" if linker == "wild" else "out.ld")
+        args += ["-o", str(outp)]
+        r = run_wild(args, timeout=60) if linker == "wild" else sh(["ld"] + args, timeout=60)
+        return r, outp, args
+    return link_case(case, objs, d, tb, linker)
+
+
+def ptr_observe(c, outpath, tb, d):
+    """Image observation for LoaderObs + python twin verdict.  AddrPlaces come from the scenario
+    (site marker + offsets) and from decoding the GOT-load instruction, never from the output's tables."""
+    out = "staticpie" if c["out"].startswith("staticpie") else c["out"]
+    case = {"sym": "hidden_d", "ref": "abs64", "out": out}
+    if out == "shared":
+        paths, ti = module_paths(case, outpath, tb, d)
+    elif out == "pie":
+        paths, ti = [outpath, tb.helper], 0
+    else:
+        paths, ti = [outpath], 0
+    bases0 = [0] * len(paths) if out != "shared" else [0, 0x20000000, 0x7f1250653000]
+    pr0 = Process(paths, bases0)            # unrelocated file image at the link-time addresses
+    tm = pr0.mods[ti]
+    B0 = tm.base
+    site = marker_addr(pr0, tm, "site")
+    if site is None:
+        raise ToolError("site marker not found")
+    places = []
+    for i, off in enumerate(sorted(c["offs"])):
+        k = PTR_SYMS[i % len(PTR_SYMS)]
+        s = SYMS[k]["sym"]
+        A = 8 if SYMS[k]["cls"] == "data" else 0
+        S = marker_addr(pr0, tm, s)
+        if S is None:
+            raise ToolError(f"definition marker {s} not found")
+        p = site + off
+        places.append((p - B0, S + A - B0, pr0.u64(p)))
+    if c["got"]:
+        g = marker_addr(pr0, tm, "gotsite")
+        P = g + 3
+        op = pr0.read(P - 2, 1)[0]
+        if op == 0x8b:
+            slot = (P + 4 + pr0.s32(P)) & MASK64
+            places.append((slot - B0, marker_addr(pr0, tm, "h_d") - B0, pr0.u64(slot)))
+        elif op != 0x8d:
+            raise LoaderError(f"unrecognised GOT load form 0x{op:x}")
+    e = tm.elf
+    rela, other = [], []
+    for off, typ, symi, add in pr0._dyn_relas(tm):
+        if typ == 8:
+            rela.append((off, add & MASK64))
+        else:
+            other.append((off, typ))
+    relr = pr0.relr_entries(tm)
+    return {"places": places, "rela": rela, "relr": relr, "other": other, "elf": e}
